@@ -17,6 +17,52 @@ fn main() {
 				emit(&json!({"lines": out}));
 			}
 		}
+		"interpret" => {
+			for case in read_cases(&args[2]) {
+				let argv = strs(&case["argv"]);
+				match case["shell_env"].as_str() {
+					Some(s) => std::env::set_var("SHELL", s),
+					None => std::env::remove_var("SHELL"),
+				}
+				let r = std::panic::catch_unwind(|| {
+					let rt = tokio::runtime::Builder::new_current_thread().enable_all().build().unwrap();
+					rt.block_on(async {
+						let a = match watchexec_cli::verif::args_from(argv).await {
+							Ok(a) => a,
+							Err(e) => return format!("ARGS-ERR:{e}"),
+						};
+						match watchexec_cli::verif::interpret_command_args(&a) {
+							Err(e) => format!("ERR:{e}"),
+							Ok(cmd) => {
+								use watchexec_supervisor::command::Program;
+								let (argv, kind): (Vec<String>, &str) = match &cmd.program {
+									Program::Exec { prog, args } => (
+										std::iter::once(prog.to_string_lossy().into_owned()).chain(args.iter().cloned()).collect(),
+										"exec",
+									),
+									Program::Shell { shell, command, args } => (
+										std::iter::once(shell.prog.to_string_lossy().into_owned())
+											.chain(shell.options.iter().cloned())
+											.chain(shell.program_option.iter().map(|o| o.to_string_lossy().into_owned()))
+											.chain(std::iter::once(command.clone()))
+											.chain(args.iter().cloned())
+											.collect(),
+										"shell",
+									),
+								};
+								format!(
+									"[{}] {kind} g={} s={}",
+									argv.iter().map(|a| hex(a.as_bytes())).collect::<Vec<_>>().join(","),
+									if cmd.options.grouped { "T" } else { "F" },
+									if cmd.options.session { "T" } else { "F" }
+								)
+							}
+						}
+					})
+				});
+				emit(&json!({"obs": r.unwrap_or_else(|_| "PANIC".into())}));
+			}
+		}
 		other => panic!("unknown subcommand {other}"),
 	}
 }
